@@ -124,7 +124,16 @@ impl Ctx {
     }
     /// picks the quick or the thorough amount
     pub fn amount(&self, quick: u32, thorough: u32) -> u32 {
-        if self.quick() { quick } else { thorough }
+        if self.quick() {
+            quick
+        } else if thorough >= 1000 {
+            // case counts of the thorough tier are multiplied by the property's `thorough_scale` (meta.json, handed over
+            // by the driver); small numbers are lengths of exhaustive families and stay as they are
+            let scale: u32 = std::env::var("NV_THOROUGH_SCALE").ok().and_then(|s| s.parse().ok()).unwrap_or(1);
+            thorough.saturating_mul(scale.max(1))
+        } else {
+            thorough
+        }
     }
     /// this worker's share of `total` cases
     pub fn share(&self, total: u32) -> u32 {
